@@ -565,7 +565,6 @@ fn stream_bounds_case<const N_SAMPLES: usize, const BS: usize>() -> bool {
 }
 
 //@ prop: C04
-//@ also: C02
 //@ features: nopar
 //@ drives: coding::encode_with_fixed_block_size (the real single-thread loop: Stream::new, FrameBuf::with_size, set_block_sizes, Source::read_samples of a user source filling packed bytes, FrameBuf::fill_le_bytes, Context::fill_le_bytes frame numbering and sample count, Stream::add_frame, StreamInfo::update_frame_info, total-sample bookkeeping)
 //@ bound: a mono 16-bit input of 33 samples with block size 32 (one full block and a final block of 1 sample); the length is concrete (symbolic lengths make the containers symbolic); measured 3.5 min per case
@@ -583,7 +582,6 @@ fn c04_stream_bounds_short_final_block() {
 }
 
 //@ prop: C04
-//@ also: C02
 //@ features: nopar
 //@ drives: coding::encode_with_fixed_block_size on an input SHORTER than one block (the single frame is both first and final)
 //@ bound: a mono 16-bit input of 5 samples with block size 32
